@@ -12,8 +12,14 @@ pub mod c09;
 pub mod c10;
 pub mod c11;
 pub mod c12;
+pub mod c13;
+pub mod c14;
+pub mod c15;
+pub mod c16;
+pub mod c17;
 pub mod c18;
 pub mod c19;
+pub mod c20;
 pub mod diag;
 
 use crate::PropDef;
@@ -49,7 +55,13 @@ pub fn registry() -> Vec<PropDef> {
         def("C10", 10, c10::case, None, true),
         def("C11", 11, c11::case, None, true),
         def("C12", 12, c12::case, Some(c12::advertised), true),
+        def("C13", 13, c13::case, None, true),
+        def("C14", 14, c14::case, None, true),
+        def("C15", 15, c15::case, None, true),
+        def("C16", 16, c16::case, Some(c16::exp_golomb_sweep), true),
+        def("C17", 17, c17::case, None, true),
         def("C18", 18, c18::case, None, true),
         def("C19", 19, c19::case, None, false),
+        def("C20", 20, c20::case, None, false),
     ]
 }
